@@ -71,8 +71,9 @@ def _filler(rng, rich, in_section):
         return {"k": "blank", "text": rng.choice(["", " ", "\t", "   "])}
     if c < 0.75:
         if rich and rng.random() < 0.3:
-            # commented-out preprocessor line / empty comment / doubled marker
-            txt = rng.choice(["; #include \"ff.itp\"", ";#ifdef FLEXIBLE", ";", ";;", "; ; nested", ";#endif", "; #define X 1"])
+            # commented-out preprocessor line / empty comment / doubled marker / indented comment-only line
+            txt = rng.choice(["; #include \"ff.itp\"", ";#ifdef FLEXIBLE", ";", ";;", "; ; nested", ";#endif", "; #define X 1",
+                              "  ; indented", "\t;tabbed comment", "   ;"])
             return {"k": "comment", "text": txt}
         return {"k": "comment", "text": rng.choice([";", "; ", ";  "]) + _comment_text(rng, rich)}
     return {"k": "pp", "text": rng.choice(['#include "forcefield.itp"', "#ifdef FLEXIBLE", "#endif", "#define POSRES", "#else",
@@ -103,7 +104,12 @@ def gen_itp(rng, tier, rich, big=None):
     # bond graph
     edges = gen.random_tree(rng, n, shape)
     c = rng.random()
-    if c < 0.3 and n >= 2:       # forest: drop some edges
+    if big and rng.random() < 0.3:
+        # thousands of atoms, ONE bond missing: at the far end of the numbering, in the middle, or the very first
+        edges = list(edges)
+        far = max(range(len(edges)), key=lambda q: max(edges[q]))
+        edges.pop(rng.choice([far, far, len(edges) // 2, 0, rng.randrange(len(edges))]))
+    elif c < 0.3 and n >= 2:       # forest: drop some edges
         edges = [e for e in edges if rng.random() < 0.8]
     elif c < 0.55 and n >= 3:    # cyclic
         edges = gen.add_cycles(rng, n, edges, rng.randint(1, 4))
@@ -172,13 +178,15 @@ def gen_itp(rng, tier, rich, big=None):
 
     # bonds distributed over sections
     use_secs = [s for s in BOND_SECTIONS if rng.random() < 0.7] or ["bonds"]
+    if not edges and rng.random() < 0.6:
+        use_secs = []            # a single bead / an ion: no bond section of any kind in the file
     per = {s: [] for s in use_secs}
     for (i, j) in edges:
         if rng.random() < 0.5:
             i, j = j, i
         per[rng.choice(use_secs)].append((i, j))
     # a duplicate listing of some pair in another section is legal
-    if edges and rng.random() < 0.3:
+    if edges and use_secs and rng.random() < 0.3:
         i, j = rng.choice(edges)
         per[rng.choice(use_secs)].append((j, i))
 
@@ -201,7 +209,14 @@ def gen_itp(rng, tier, rich, big=None):
     for s in use_secs:
         pairs = per[s]
         if rich and len(pairs) >= 2 and rng.random() < 0.5 or (not rich and len(pairs) >= 2 and rng.random() < 0.08):
-            cut = rng.randint(1, len(pairs) - 1)          # the same section name twice
+            cut = rng.randint(1, len(pairs) - 1)          # the same section name twice ...
+            if len(pairs) >= 3 and rng.random() < 0.4:     # ... or three times
+                cut2 = rng.randint(cut + 1, len(pairs)) if cut + 1 <= len(pairs) - 1 else None
+                if cut2 is not None and cut2 < len(pairs):
+                    blocks.append((s, bond_ops(pairs[:cut])))
+                    blocks.append((s, bond_ops(pairs[cut:cut2])))
+                    blocks.append((s, bond_ops(pairs[cut2:])))
+                    continue
             blocks.append((s, bond_ops(pairs[:cut])))
             blocks.append((s, bond_ops(pairs[cut:])))
         else:
@@ -215,7 +230,8 @@ def gen_itp(rng, tier, rich, big=None):
                 lines.append({"k": "other", "text": _join(rng, ids + [rng.choice([1, 2, 9]), "%.3f" % rng.uniform(0, 180)]) + _trail(rng, rich)})
             blocks.append((s, lines))
             if s == "dihedrals" and rng.random() < 0.6:    # repeated [ dihedrals ] as in the shipped AA files
-                blocks.append((s, [{"k": "other", "text": _join(rng, [nr[rng.randrange(n)] for _ in range(4)] + [2, "0.0", "167.4"])}]))
+                for _rep in range(rng.choice([1, 1, 2])):
+                    blocks.append((s, [{"k": "other", "text": _join(rng, [nr[rng.randrange(n)] for _ in range(4)] + [2, "0.0", "167.4"])}]))
     first = blocks[0]
     rest = blocks[1:]
     if rng.random() < 0.5:
@@ -460,14 +476,45 @@ def execute(trace, ctx):
     except Exception as e:
         ctx.violate(P, "copy-raised", f"MoleculeTop.copy raised {type(e).__name__}: {e}")
         return
+    try:
+        _check_copy(ctx, P, mt, cp, truth, want, n)
+    except Exception as e:
+        import traceback
+        ctx.violate(P, "copy-raised", f"working with a copy raised {type(e).__name__}: {e}\n{traceback.format_exc()[-500:]}")
+    ctx.op("copy", "ok")
+
+
+def _fields(top):
+    return [(a.name, a.resname, a.resid, a.index, frozenset(a.bonds)) for a in top]
+
+
+def _check_copy(ctx, P, mt, cp, truth, want, n):
+    from gaddlemaps.components import are_connected
     if not (cp == mt) or (cp != mt):
         ctx.violate(P, "copy-not-equal", "a fresh copy does not compare equal to the original")
     if cp.name != mt.name or len(cp) != len(mt):
         ctx.violate(P, "copy-not-equal", "copy has another name or length")
+    # equal field by field (the library's == does not look at everything)
+    adj = gen.adjacency(n, [tuple(e) for e in truth["edges"]])
+    want_fields = [(an, rn, ri, i, frozenset(adj[i])) for i, (an, rn, ri) in enumerate(truth["atoms"])]
+    for who, top in (("copy", cp), ("copy of the copy", cp.copy())):
+        got_f = _fields(top)
+        if got_f != want_fields:
+            k = next((i for i, (a, b) in enumerate(zip(got_f, want_fields)) if a != b), min(len(got_f), n))
+            ctx.violate(P, "copy-not-equal", f"the {who} differs from the file's topology at atom {k}: "
+                                             f"{got_f[k] if k < len(got_f) else None} vs {want_fields[k] if k < n else None}")
+            break
+    if n <= 400:
+        try:
+            if bool(are_connected(cp.atoms)) != want:
+                ctx.violate(P, "connectivity", f"are_connected on the COPY's atoms says {not want}; the graph is "
+                                               f"{'connected' if want else 'not connected'}")
+        except RecursionError:
+            pass
     shared = [i for i in range(min(len(cp), len(mt))) if cp[i] is mt[i] or cp[i].bonds is mt[i].bonds]
     if shared or cp.atoms is mt.atoms:
         ctx.violate(P, "copy-shares-objects", f"copy shares atom / bond-set objects with the original at positions {shared[:5]}")
-    snapshot = [(a.name, a.resname, a.resid, a.index, frozenset(a.bonds)) for a in mt]
+    snapshot = _fields(mt)
     if len(cp) >= 1:
         cp[0].name = "ZZ9"
         cp[0].resname = "QQQ"
@@ -480,10 +527,48 @@ def execute(trace, ctx):
             else:
                 cp[0].connect(cp[k])
         cp.name = "OTHER"
-    after = [(a.name, a.resname, a.resid, a.index, frozenset(a.bonds)) for a in mt]
+    after = _fields(mt)
     if after != snapshot or mt.name != truth["name"]:
         ctx.violate(P, "copy-not-independent", "modifying the copy changed the original topology")
-    ctx.op("copy", "ok")
+    # the other direction, and a copy taken AFTER the original was edited: a bond is added between two components (or
+    # between the first and the last atom), the connectivity answer and a new copy must follow
+    if 2 <= n <= 400:
+        comp = _component(adj, 0)
+        other = next((i for i in range(n) if i not in comp), None)
+        j = other if other is not None else n - 1
+        if j not in adj[0] and j != 0:
+            before_cp = _fields(cp)
+            mt[0].connect(mt[j])
+            new_edges = set(truth["edges"]) | {frozenset((0, j))}
+            want2 = gen.is_connected(n, [tuple(e) for e in new_edges])
+            if _fields(cp) != before_cp:
+                ctx.violate(P, "copy-not-independent", "adding a bond to the original changed the copy taken before")
+            try:
+                got2 = bool(are_connected(mt.atoms))
+                if got2 != want2:
+                    ctx.violate(P, "connectivity", f"after connecting atoms 0 and {j}: are_connected={got2}, the graph is "
+                                                   f"{'connected' if want2 else 'not connected'}", key="after-connect")
+            except RecursionError:
+                pass
+            adj2 = gen.adjacency(n, [tuple(e) for e in new_edges])
+            cp2 = mt.copy()
+            want_f2 = [(an, rn, ri, i, frozenset(adj2[i])) for i, (an, rn, ri) in enumerate(truth["atoms"])]
+            if _fields(cp2) != want_f2:
+                ctx.violate(P, "copy-not-equal", "a copy taken after a bond was added to the original does not carry the topology as it "
+                                                 "is now")
+            ctx.probe("copy_after_edit")
+
+
+def _component(adj, root):
+    seen = {root}
+    todo = [root]
+    while todo:
+        v = todo.pop()
+        for w in adj[v]:
+            if w not in seen:
+                seen.add(w)
+                todo.append(w)
+    return seen
 
 
 def _stack():
@@ -581,6 +666,49 @@ def compare_files(ctx, P, a_text, b_text, what):
     return ok
 
 
+def _norm_comment(c):
+    return " ".join(c.replace(";", " ; ").split())
+
+
+def objects_match(ctx, P, itp, text, what):
+    """What RE-READING yields, as objects: sections in order of first appearance; per section the content lines (the list
+    itself) token by token, and every line (`.lines`) with its content and comment, against the independent classifier."""
+    _h, want, order = classify(text)
+    try:
+        got_order = [str(k) for k in itp.keys() if str(k) != "header"]      # ("header": the text before the first section)
+        if got_order != order:
+            ctx.violate(P, "section-order", f"{what}: the parsed object has sections {got_order}, the file {order}", key="object")
+            return
+        for sec in order:
+            section = itp[sec]
+            w_content = [it for it in want[sec] if it[0] == "content"]
+            g_content = [tuple(l.content.split()) for l in section]
+            if g_content != [it[1] for it in w_content]:
+                k = next((i for i, (x, y) in enumerate(zip(g_content, [it[1] for it in w_content])) if x != y),
+                         min(len(g_content), len(w_content)))
+                ctx.violate(P, "content-lines", f"{what}: parsed section [{sec}] holds {len(g_content)} content lines, the file "
+                                                f"{len(w_content)}; first difference at {k}", key="object")
+                return
+            g_all = []
+            for l in section.lines:
+                toks = tuple(l.content.split())
+                c = _norm_comment(l.comment)
+                if toks:
+                    g_all.append(("content", toks, c))
+                elif c:
+                    g_all.append(("other", c))
+            w_all = [it if it[0] == "content" else ("other", _norm_comment(it[1])) for it in want[sec]]
+            w_all = [it for it in w_all if it[0] == "content" or it[1]]
+            if g_all != w_all:
+                k = next((i for i, (x, y) in enumerate(zip(g_all, w_all)) if x != y), min(len(g_all), len(w_all)))
+                ctx.violate(P, "comment-lines", f"{what}: the lines of parsed section [{sec}] differ from the file's at item {k}: "
+                                                f"{g_all[k] if k < len(g_all) else None} vs {w_all[k] if k < len(w_all) else None}",
+                            key="object")
+                return
+    except Exception as e:
+        ctx.violate(P, "history-raised", f"{what}: inspecting the parsed object raised {type(e).__name__}: {e}", key="object")
+
+
 def execute_c16(trace, ctx):
     P = "C16"
     from gaddlemaps.parsers import ItpFile, read_topology
@@ -631,7 +759,11 @@ def execute_c16(trace, ctx):
             del fb
             texts["C"] = _read_image(seam, pc)
             step = "read C"
-            ItpFile(pc)
+            fc = ItpFile(pc)
+            # the objects the re-reads yield, judged against the ORIGINAL text
+            objects_match(ctx, P, ItpFile(pb), a_text, "re-read of B")
+            objects_match(ctx, P, fc, a_text, "re-read of C")
+            del fc
         except Exception as e:
             ctx.op("history", "raised:" + step)
             ctx.violate(P, "history-raised", f"step '{step}' raised {type(e).__name__}: {e}", key=step)
